@@ -228,6 +228,11 @@ func searchMode(t *testing.T) {
 			s, _ := json.Marshal(map[string]interface{}{"run": r, "shape": res.Config.Shape, "config": res.Sample, "steps": res.Stats.Steps, "faults": res.Stats.Faults, "trace_head": tr})
 			out.Samples = append(out.Samples, s)
 		}
+		if *fTrace && os.Getenv("SIM_DUMP_TRACE") != "" { // development aid
+			for _, l := range res.Trace {
+				fmt.Println("   " + l)
+			}
+		}
 		if *fTrace {
 			fmt.Printf("run %d: %s steps=%d commits=%d maxview=%d viol=%v err=%q leak=%q faults=%v probes=%v\n", r, res.Config.Shape, res.Stats.Steps, res.Stats.Commits, res.Stats.MaxView, res.Violation, res.HarnessErr, res.Leak, res.Stats.Faults, res.Stats.Probes)
 		}
